@@ -197,7 +197,7 @@ def host_features():
 @st.composite
 def cases(draw, backend):
     sch = standard_schema(backend)
-    kind = draw(st.sampled_from(NUM_GRAFTS + NUM_GRAFTS + COL_GRAFTS + COL_GRAFTS + TOP_GRAFTS))
+    kind = draw(st.sampled_from(NUM_GRAFTS + NUM_GRAFTS + COL_GRAFTS + COL_GRAFTS + TOP_GRAFTS * 4))
     if kind in TOP_GRAFTS:
         q = draw(queries(sch, host_features()))
         text = q.text
